@@ -682,6 +682,20 @@ class _MissingImportFinder:
         self.visit(node.value)
         self.visit(target)
 
+    def visit_AnnAssign(self, node) -> None:
+        # ``x: T = v`` evaluates ``v`` (and ``T``) before storing ``x``.
+        assert node._fields == ('target', 'annotation', 'value', 'simple'), node._fields
+        if node.value is not None:
+            self.visit(node.value)
+        self.visit(node.annotation)
+        self.visit(node.target)
+
+    def visit_NamedExpr(self, node) -> None:
+        # ``(x := v)`` evaluates ``v`` before storing ``x``.
+        assert node._fields == ('target', 'value'), node._fields
+        self.visit(node.value)
+        self.visit(node.target)
+
     def visit_ClassDef(self, node):
         logger.debug("visit_ClassDef(%r)", node)
         if sys.version_info > (3,12):
